@@ -352,6 +352,16 @@ func EQZ(t *Term) *Term {
 	}
 	// field-level equalities
 	if a := t.SingleAtom(); a != nil {
+		if a.Kind == IWOp && a.Op == "or" {
+			out := TInt(1)
+			for _, x := range a.Args {
+				out = out.Mul(EQZ(x))
+			}
+			return out
+		}
+		if a.Kind == IWOp && a.Op == "xor" && len(a.Args) == 2 {
+			return EQZ(a.Args[0].Sub(a.Args[1]))
+		}
 		switch a.Kind {
 		case ICanon, IMont:
 			return ISZ(a.V)
